@@ -6,7 +6,10 @@ one action each (`self.val_file.flush()?` …) and the `dirty` flag.  `tools/rs2
 statement into `FlushM β`: a state monad over the map (`MapSt β`: three files of an arbitrary type `β` and the flag)
 and a fault counter, with failure (`Result`: `none` = `Err`; what was done before the error stays done).  The per-file
 actions are parameters (`FilePrims β`), so the generated functions can be instantiated with any buffer model, e.g. the
-chunk-level `RaBuf` (`Abyss/Lemmas/FlushGenL.lean`).  Hand-written; not imported by the model files.
+chunk-level `RaBuf` (`Abyss/Lemmas/FlushGenL.lean`).  Second half: the database object — the five registries of
+`FileDbInner` (`DbReg μ`, maps of any state type `μ`) and the monad `DbRegM μ` of the generated `Gen.dbApplyAll` /
+`Gen.dbSyncAll` / `Gen.dbSyncData` (from `FileDbInner::{applay_all, sync_all, sync_data}`).  Hand-written; imports nothing;
+not imported by the model files.
 -/
 namespace Abyss
 
@@ -81,5 +84,111 @@ def MapSt.flushLike {β : Type} (act : FileAct β) (m : MapSt β) (k : Nat) : Ma
   let rh := act m.htx rk.2.1
   if !rh.2.2 then ({ val := rv.1, key := rk.1, htx := rh.1, dirty := true }, rh.2.1, false) else
   ({ val := rv.1, key := rk.1, htx := rh.1, dirty := false }, rh.2.1, true)
+
+/-! ## The database object: the five registries of `FileDbInner` (`Gen.dbApplyAll`, `Gen.dbSyncAll`, `Gen.dbSyncData`)
+
+`FileDbInner` (src/filedb/inner/mod.rs) keeps one `BTreeMap<String, FileDbMap<…>>` per key type.  A map handle
+`FileDbMap<KT>` is an `Rc<RefCell<FileDbXxxInner<KT>>>`: every clone of it *is* the map, so in the model a handle is
+(registry, name) and what a call does to the map is done to the entry of the registry.  The state of one map is of any
+type `μ`. -/
+
+/-- which of the five registries: `db_bytes_map`, `db_string_map`, `db_i64_map`, `db_u64_map`, `db_vu64_map` -/
+inductive RegKind where
+  | bytes | string | i64 | u64 | vu64
+  deriving DecidableEq, Repr
+
+/-- the five `BTreeMap<String, _>` of `FileDbInner`, each as an association list IN ASCENDING ORDER OF THE NAMES, without
+repeated names (what `BTreeMap::keys()` iterates over; keeping the lists so is the caller's obligation) -/
+structure DbReg (μ : Type) where
+  bytes : List (String × μ)
+  string : List (String × μ)
+  i64 : List (String × μ)
+  u64 : List (String × μ)
+  vu64 : List (String × μ)
+
+namespace DbReg
+variable {μ : Type}
+
+def get (r : DbReg μ) : RegKind → List (String × μ)
+  | .bytes => r.bytes
+  | .string => r.string
+  | .i64 => r.i64
+  | .u64 => r.u64
+  | .vu64 => r.vu64
+
+def set (r : DbReg μ) (k : RegKind) (l : List (String × μ)) : DbReg μ :=
+  match k with
+  | .bytes => { r with bytes := l }
+  | .string => { r with string := l }
+  | .i64 => { r with i64 := l }
+  | .u64 => { r with u64 := l }
+  | .vu64 => { r with vu64 := l }
+
+/-- all maps in the order `applay_all` visits them: bytes, string, i64, u64, vu64, each in name order -/
+def all (r : DbReg μ) : List (String × μ) := r.bytes ++ r.string ++ r.i64 ++ r.u64 ++ r.vu64
+
+end DbReg
+
+/-- `func: Fn(&mut dyn DbXxxBase) -> Result<()>` applied to a map: the new state of the map, `true` = `Ok(())` -/
+abbrev MapAct (μ : Type) : Type := μ → μ × Bool
+
+/-- a `Result<()>` method of a map in `FlushM` (`sync_all`, `sync_data`, `flush`) as a `MapAct` on (map, fault counter of
+its files): what `|o| o.sync_all()` is for `o: &mut dyn DbXxxBase` a map handle -/
+def FlushM.onMap {β : Type} (x : FlushM β Unit) : MapAct (MapSt β × Nat) := fun o =>
+  let r := x.run o.1 o.2
+  ((r.1, r.2.1), r.2.2)
+
+/-- replace the state of the first entry called `name` -/
+def regUpdate {μ : Type} (name : String) (m : μ) : List (String × μ) → List (String × μ)
+  | [] => []
+  | e :: rest => if e.1 = name then (e.1, m) :: rest else e :: regUpdate name m rest
+
+/-- state = the registries; value `none` = `Err` / panic (the state reached so far is kept) -/
+def DbRegM (μ α : Type) : Type := DbReg μ → Option α × DbReg μ
+
+namespace DbRegM
+variable {μ : Type}
+
+instance : Monad (DbRegM μ) where
+  pure a := fun r => (some a, r)
+  bind x f := fun r =>
+    match x r with
+    | (none, r') => (none, r')
+    | (some a, r') => f a r'
+
+/-- `self.db_<k>_map.keys().cloned().collect()`: the names, in the order of the `BTreeMap` (ascending) -/
+def keys (k : RegKind) : DbRegM μ (List String) := fun r => (some ((r.get k).map (·.1)), r)
+
+/-- `self.db_map_<k>(&name).unwrap()` (`db_map_<k>` = `self.db_<k>_map.get(name).cloned()`): the handle of the map of that
+name — a clone of the `Rc`, i.e. (registry, name); `None.unwrap()` panics -/
+def handle (k : RegKind) (name : String) : DbRegM μ (RegKind × String) := fun r =>
+  (if (r.get k).any (·.1 = name) then some (k, name) else none, r)
+
+/-- `func(&mut b)?` for a handle `b`: the call changes the map behind the handle, i.e. the entry of the registry -/
+def call (func : MapAct μ) (h : RegKind × String) : DbRegM μ Unit := fun r =>
+  match (r.get h.1).find? (·.1 = h.2) with
+  | none => (none, r)
+  | some e =>
+    let res := func e.2
+    (if res.2 then some () else none, r.set h.1 (regUpdate h.2 res.1 (r.get h.1)))
+
+/-- run a `Result<()>` function: the registries afterwards, `true` = `Ok(())` -/
+def run (x : DbRegM μ Unit) (r : DbReg μ) : DbReg μ × Bool :=
+  let res := x r
+  (res.2, res.1.isSome)
+
+end DbRegM
+
+/-- what `applay_all` amounts to on the maps in visiting order (`DbReg.all`): apply `func` to each, stop at the first
+error; the maps after the failing one are untouched (`Abyss/Lemmas/FlushGenL.lean`: `dbApplyAll_eq_applyList`; the hand
+model `Buf.dbSync` has this shape) -/
+def applyList {μ : Type} (func : MapAct μ) : List (String × μ) → List (String × μ) × Bool
+  | [] => ([], true)
+  | (n, m) :: rest =>
+    let r := func m
+    if r.2 then
+      let rr := applyList func rest
+      ((n, r.1) :: rr.1, rr.2)
+    else ((n, r.1) :: rest, false)
 
 end Abyss
